@@ -225,9 +225,7 @@ impl FragmentedMuxer {
         let first_dts = self.samples[0].dts;
         let last_dts = self.samples.last().unwrap().dts;
         let duration_ticks = last_dts.saturating_sub(first_dts);
-        let duration_ms = duration_ticks * 1000 / self.config.timescale as u64;
-
-        duration_ms >= self.config.fragment_duration_ms as u64
+        ticks_to_ms(duration_ticks, self.config.timescale) >= self.config.fragment_duration_ms as u64
     }
 
     /// Get current fragment duration in milliseconds.
@@ -238,8 +236,15 @@ impl FragmentedMuxer {
         let first_dts = self.samples[0].dts;
         let last_dts = self.samples.last().unwrap().dts;
         let duration_ticks = last_dts.saturating_sub(first_dts);
-        duration_ticks * 1000 / self.config.timescale as u64
+        ticks_to_ms(duration_ticks, self.config.timescale)
     }
+}
+
+/// Convert a tick span to milliseconds without overflow; a zero timescale yields 0.
+fn ticks_to_ms(ticks: u64, timescale: u32) -> u64 {
+    (u128::from(ticks) * 1000)
+        .checked_div(u128::from(timescale))
+        .map_or(0, |ms| ms.min(u128::from(u64::MAX)) as u64)
 }
 
 // ============================================================================
@@ -864,7 +869,7 @@ fn build_trun(samples: &[FragmentSample], data_offset: u32) -> Vec<u8> {
         payload.extend_from_slice(&flags.to_be_bytes());
 
         // Composition time offset (signed, pts - dts)
-        let cts = (sample.pts as i64 - sample.dts as i64) as i32;
+        let cts = sample.pts.wrapping_sub(sample.dts) as i32;
         payload.extend_from_slice(&cts.to_be_bytes());
     }
 
